@@ -112,7 +112,14 @@ class Failure(Exception):
         self.clause, self.detail = clause, detail
 
 
-def compare_insert(before, after_scfg, new, P, S, ident_before, control: bool):
+def eff_table(b):
+    """Value table of the block that actually leaves `b` (through the exiting blocks of regions), or None."""
+    while isinstance(b, RegionBlock):
+        b = b.subregion.graph[b.exiting]
+    return dict(b.branch_value_table) if isinstance(b, SyntheticBranch) else None
+
+
+def compare_insert(before, after_scfg, new, P, S, ident_before, control: bool, tables_before=None):
     after = arcs_of(after_scfg)
     for k, v in before.items():
         if k in P:
@@ -190,12 +197,31 @@ def compare_insert(before, after_scfg, new, P, S, ident_before, control: bool):
         if isinstance(b, SyntheticBranch):
             if set(b.branch_value_table.values()) != set(b._jump_targets):
                 raise Failure("branching-predecessor-table", f"{type(b).__name__} {b.name!r}: table {b.branch_value_table} vs targets {b._jump_targets}")
+            # every control value keeps a table entry: a value whose target stays outside S keeps it, a value whose target
+            # is in S now leads to the new block (or, with control blocks, to one of the blocks added for that arc)
+            told = (tables_before or {}).get(p)
+            if told is not None:
+                tnew = dict(b.branch_value_table)
+                for val, tgt in told.items():
+                    if val not in tnew:
+                        raise Failure("branching-predecessor-table-keys", f"{type(b).__name__} {b.name!r}: value {val} (was -> {tgt!r}) has no "
+                                                                            f"table entry after the insertion: {told} became {tnew}")
+                    if tgt in S:
+                        ok = tnew[val] in added if control else tnew[val] == new
+                    else:
+                        ok = tnew[val] == tgt
+                    if not ok:
+                        raise Failure("branching-predecessor-table-keys", f"{type(b).__name__} {b.name!r}: value {val} led to {tgt!r}, now to "
+                                                                            f"{tnew[val]!r}: {told} became {tnew}")
+                if set(tnew) - set(told):
+                    raise Failure("branching-predecessor-table-keys", f"{type(b).__name__} {b.name!r}: table gained values {sorted(set(tnew) - set(told))}")
 
 
 def apply_op(scfg, op, check=True):
     """Apply one operation to the real graph; compare with the reference.  Returns a label."""
     before = arcs_of(scfg)
     ident = dict(scfg.graph)
+    tables = {k: eff_table(b) for k, b in scfg.graph.items()}
     kind = op[0]
     if kind == "join_returns":
         exits = [k for k, v in before.items() if not scfg.graph[k].is_exiting is False and not scfg.graph[k].jump_targets]
@@ -222,13 +248,13 @@ def apply_op(scfg, op, check=True):
         scfg.insert_block(new, list(P), list(S), TYPES[ty])
         if type(scfg.graph.get(new)) is not TYPES[ty]:
             raise Failure("new-block-type", f"new block is {type(scfg.graph.get(new)).__name__}")
-        compare_insert(before, scfg, new, P, S, ident, control=False)
+        compare_insert(before, scfg, new, P, S, ident, control=False, tables_before=tables)
         return
     if kind == "insert_control":
         _, P, S = op[:3]
         new = scfg.name_gen.new_block_name("synth_head")
         scfg.insert_block_and_control_blocks(new, list(P), list(S))
-        compare_insert(before, scfg, new, P, S, ident, control=True)
+        compare_insert(before, scfg, new, P, S, ident, control=True, tables_before=tables)
         return
     if kind == "join_tails_and_exits":
         _, T, E = op
